@@ -134,3 +134,54 @@ register(Job("C18", "history3_glob_chars", make(3, 3, "a.*?[]!-", True), tier="t
              doc={"template": "history of 3 operations, ids with glob metacharacters, 2 contexts",
                   "symbolic": ["id1, id2: strings 1..3 over {a . * ? [ ] ! -}", "op_i", "key_i", "fmt_i", "ctx_i"],
                   "functions": FUN, "assumptions": A, "bounds": "ids of length <= 3; 3 operations"}))
+
+
+# ------------------------------------------------------------------ AST-derived SMT-LIB query, unbounded id length
+def make_smtlib() -> Any:
+    def mk() -> Any:
+        from crosshair.util import UnknownSatisfiability
+
+        from ml_pipeline_engine.artifact_store.enums import DataFormat
+        from .. import smtlib as S
+
+        def h(sym: Any) -> Tuple[str, Dict[str, Any]]:
+            with untraced():
+                try:
+                    scheme = S.derive_fs_scheme()
+                    q = S.fs_alias_query(scheme, [f.value for f in DataFormat])
+                except S.NotDerivable as e:
+                    scheme, q = None, None
+                    why = str(e)
+                if q is None:
+                    res, v = {"derivation": "not derivable: " + why}, "inconclusive"
+                else:
+                    res = S.run_solvers(q)
+                    v = S.verdict(res)
+                model = S.model_of(q, ["k1", "k2", "f1", "f2"]) if v == "sat" else {}
+            if v == "inconclusive":
+                if sym.symbolic:
+                    raise UnknownSatisfiability("SMT-LIB query inconclusive: %r" % ({k: r for k, r in res.items() if not k.endswith(".out")},))
+                return "inconclusive", {"digest": ["inconclusive"], "goals": [], "summary": res}
+            label = None
+            if v == "sat":
+                label = "distinct_ids_alias:%s.%s_found_by_lookup_of_%s" % (model.get("k1"), model.get("f1"), model.get("k2"))
+            info = {"digest": [v], "goals": ["decided"],
+                    "summary": {"scheme": repr(scheme), "solvers": {k: r for k, r in res.items() if not k.endswith(".out")},
+                                "model": model}}
+            return (label or "ok"), info
+
+        return h
+
+    return mk
+
+
+register(Job("C18", "smtlib_filename_scheme", make_smtlib(), tier="quick", budget_s=300, goals=("decided",),
+             doc={"template": "SMT-LIB2 (QF_SLIA) query derived from the AST of filesystem.py: the f-string of the file name "
+                              "written by save and the lookup (glob pattern or exact names) of _get_glob",
+                  "symbolic": ["id1, id2: strings of ANY length without '/', '*', '?', '['", "fmt1, fmt2 in DataFormat"],
+                  "functions": ["ml_pipeline_engine/artifact_store/store/filesystem.py::save (file name), _get_glob (lookup)"],
+                  "bounds": "no length bound; metacharacter-free ids; decided by /usr/bin/z3 4.8.12, z3 5.1.0 and cvc5 1.0.3, "
+                            "which must agree (any '(error', unknown or disagreement = inconclusive)",
+                  "assumptions": ["the translation covers the two f-strings only (the directory layout and the serializer are "
+                                  "covered by the CrossHair jobs); validated on the pre-fix glob scheme: sat with "
+                                  "id1='OG.', id2='OG'"]}))
